@@ -69,8 +69,12 @@ def post_randint(self, min, max, result):
 
 def post_random_float(self, min, max, result):
     _obs("random_float", [min, max], result)
-    if type(result) is not float or math.isnan(result) or not (float(min) <= result <= float(max)):
-        _viol(f"random_float-out-of-bounds:{REC['impl']}", {"min": min, "max": max, "result": core.short(result)})
+    # exact comparison (python compares ints and floats exactly): with int bounds beyond 2**53 the float NEXT to a bound
+    # can lie outside it
+    if type(result) is not float:
+        _viol(f"random_float-not-a-float:{REC['impl']}", {"min": min, "max": max, "result": core.short(result), "type": type(result).__name__})
+    elif math.isnan(result) or not (min <= result <= max):
+        _viol(f"random_float-out-of-bounds:{REC['impl']}", {"min": min, "max": max, "result": repr(result)})
     return True
 
 
@@ -235,6 +239,7 @@ BOUNDS = [(0, 0), (-3, -3), (-5, 5), (0, 1), (1, 6), (-1000, 1000), (0, 1500), (
 FBOUNDS = [(0.0, 1.0), (-1.5, 2.5), (3.0, 3.0), (-100.0, 100.0), (0.0, 1e-9), (-1e12, 1e12)]
 # bounds whose difference does not add back exactly ((max - min) + min lands one ulp above max), degenerate ranges at
 # constants with a full mantissa, and ranges wider than the largest float (max - min overflows)
+FBOUNDS += [(0, MAXI), (-MAXI, 0), (2**53 + 1, 2**53 + 3), (0, 9), (-MAXI, MAXI)]  # int bounds (FloatRange(0, 9) is legal), also beyond 2**53
 FBOUNDS += [(-0.3, 0.1), (0.1, 0.7), (-0.7, -0.1), (0.9, 0.9), (1.7, 1.7), (1 / 3, 1 / 3), (-1e308, 1e308), (-1.7e308, 1.7e308), (5e-324, 1e-323)]
 WEIGHTS = [[0, 1, 2], [1, 0], [0, 0, 5], [5, 0, 0], [1, 1, 1], [0.5, 0, 0.25], [0, 0, 0, 1], [3], [0.00001, 0.99999], [2, 0, 0, 0, 3], [0, 1e-5]]
 
